@@ -69,8 +69,9 @@ THEOREMS = [
     "Measured.convert_flat_connected", "Measured.convert_simple_connected",
     "Measured.Obligations.NearShipped.shipped_fundamental_units_interconvert",
     "Measured.Obligations.NearShipped.shipped_simple_units_interconvert",
+    "Measured.C07.path_search_never_raises_near", "Measured.C07.simple_conversion_only_not_found_near", "Measured.C07.search_complete", "Measured.C07.connected_converts", "Measured.C07.connected_converts_simple",
 ]
-LEAN_TARGETS = ["Props.C07", "Obligations.C07", "Obligations.C07Near", "Obligations.C09Flat"]
+LEAN_TARGETS = ["Props.C07", "Obligations.C07", "Obligations.C07Near", "Obligations.C09Flat", "Props.Planner"]
 QUICK = {"chunks": 3, "ops": 1200}
 THOROUGH = {"chunks": 8, "ops": 8000}
 RTOL = 1e-11
